@@ -14,6 +14,29 @@ META = {
 }
 
 
+HELPERS = {}
+
+
+def helper_summary(facts, fn, name):
+    """(flag effect, pair args) of a same-class helper that is a straight-line `flag = X; return make_pair(..)`"""
+    key = (fn.cls, name, fn.kind)
+    if key not in HELPERS:
+        HELPERS[key] = None
+        for g in facts.fns(fn.cls + '::' + name):
+            if g.kind != fn.kind and not (g.kind in ('pattern', 'plain') and fn.kind in ('pattern', 'plain')):
+                continue
+            rets = g.returns()
+            if len(rets) != 1 or g.body.find(lambda n: n.k in ('IfStmt', 'SwitchStmt', 'ForStmt', 'WhileStmt')):
+                continue
+            flag = None
+            for tgt, op, val, st in stores(g.body):
+                if target_name(tgt) == FLAG and op == '=':
+                    flag = 'set' if cval(val) == 1 else 'clear'
+            HELPERS[key] = (flag, pair_args(rets[0]))
+            break
+    return HELPERS[key]
+
+
 def pair_args(ret):
     v = ret_value(ret)
     if v is None:
@@ -39,6 +62,10 @@ def run(chk, facts, tier):
             for tgt, op, val, st in stores(node):
                 if st is node and target_name(tgt) == FLAG and op == '=':
                     flag = 'set' if cval(val) == 1 else 'clear'
+            if node.d.get('call') and node.cn and not node.args() and node.cn not in ('make_pair',):
+                hs = helper_summary(facts, fn, node.cn)
+                if hs is not None and hs[0] is not None:
+                    flag = hs[0]
             if node.k == 'ReturnStmt':
                 rets = rets + ((node.i, flag),)
             return (flag, rets)
@@ -51,6 +78,9 @@ def run(chk, facts, tier):
         for rid, flags in sorted(per_ret.items()):
             r = fn.nodes[rid]
             pa = pair_args(r)
+            if pa is None and ret_value(r) is not None and ret_value(r).d.get('call') and not ret_value(r).args():
+                hs = helper_summary(facts, fn, ret_value(r).cn)
+                pa = hs[1] if hs is not None else None
             if pa is None:
                 chk.instance('no-stuck-flag', fn, r.text()[:60], False, 'return value is not std::make_pair(code, indicate)', node=r, key='return@shape')
                 continue
